@@ -74,7 +74,7 @@ theorem stepF (s s' : St) (l : Lbl) (h : InvF s) (hB : InvB s) (hC : InvC s) (hD
           simp only [List.flatten_append, List.mem_append, List.flatten_cons, List.flatten_nil, List.append_nil]
           grind
     · simp at hs
-  case exportEnd =>
+  case exportEnd ok =>
     split at hs
     · rename_i hb
       simp at hs; subst hs
@@ -117,6 +117,39 @@ theorem stepF (s s' : St) (l : Lbl) (h : InvF s) (hB : InvB s) (hC : InvC s) (hD
       | exact ⟨h1, h2, h3⟩
       | (refine ⟨?_, ?_, ?_⟩ <;> simp_all [afterExport, handL, spansOf] <;> grind)))
 
+/-! ### Part L: the Shutdown calls that did not win `stopOnce` -/
+structure InvL (s : St) : Prop where
+  retDone : ∀ c ∈ s.sds, c.ret = true → s.sdRetOk = true
+  preSeen : ∀ c ∈ s.sds, ∀ id ∈ c.pre, id ∈ s.seen
+  called : s.sds ≠ [] → s.sd ≠ .none
+
+theorem stepL (s s' : St) (l : Lbl) (h : InvL s) (hs : step s l = some s') : InvL s' := by
+  obtain ⟨h1, h2, h3⟩ := h
+  cases l <;> simp only [step] at hs
+  case sdReturnLate cid =>
+    split at hs
+    · rename_i hg
+      simp at hs; subst hs
+      refine ⟨fun _ _ _ => hg.1, ?_, ?_⟩
+      · intro c hc
+        simp only [List.mem_map] at hc
+        obtain ⟨c0, hc0, he⟩ := hc
+        subst he
+        split <;> exact h2 c0 hc0
+      · intro _
+        apply h3
+        intro he
+        have := hg.2
+        simp [he] at this
+    · simp at hs
+  all_goals (
+    repeat' (split at hs)
+    all_goals (try (simp at hs))
+    all_goals (try subst hs)
+    all_goals (first
+      | exact ⟨h1, h2, h3⟩
+      | (refine ⟨?_, ?_, ?_⟩ <;> simp_all <;> grind)))
+
 /-! ### The full invariant -/
 structure Inv (s : St) : Prop where
   a : InvA s
@@ -125,14 +158,15 @@ structure Inv (s : St) : Prop where
   d : InvD s
   e : InvE s
   f : InvF s
+  l : InvL s
 
 theorem inv_init (cap maxB : Nat) (blocking : Bool) (hpos : 1 ≤ maxB) : Inv (init cap maxB blocking) := by
-  refine ⟨⟨?_, ?_⟩, ⟨hpos, ?_, ?_, ?_, ?_⟩, ⟨?_, ?_, ?_, ?_, ?_, ?_, ?_, ?_⟩, ⟨?_, ?_⟩, ⟨?_, ?_, ?_, ?_⟩, ⟨?_, ?_, ?_⟩⟩ <;>
+  refine ⟨⟨?_, ?_⟩, ⟨hpos, ?_, ?_, ?_, ?_⟩, ⟨?_, ?_, ?_, ?_, ?_, ?_, ?_, ?_⟩, ⟨?_, ?_⟩, ⟨?_, ?_, ?_, ?_⟩, ⟨?_, ?_, ?_⟩, ⟨?_, ?_, ?_⟩⟩ <;>
     simp [init, allIds, spansOf, handL] <;> omega
 
 theorem inv_step (s s' : St) (l : Lbl) (h : Inv s) (hs : step s l = some s') : Inv s' :=
   ⟨stepA s s' l h.a hs, stepB s s' l h.b hs, stepC s s' l h.c h.b hs, stepD s s' l h.d hs,
-   stepE s s' l h.e h.d hs, stepF s s' l h.f h.b h.c h.d hs⟩
+   stepE s s' l h.e h.d hs, stepF s s' l h.f h.b h.c h.d hs, stepL s s' l h.l hs⟩
 
 theorem step_cfg (s s' : St) (l : Lbl) (hs : step s l = some s') :
     s'.cap = s.cap ∧ s'.maxB = s.maxB ∧ s'.blocking = s.blocking := by
